@@ -147,12 +147,15 @@ CHECKS = {
     'C01': dict(
         text='FxTerms/FxAlgebra give every operator term an exact rational matrix and transcribe the rule table, '
              'the n-ary rules, the scan of AlgebraicReductionRule.apply (one loop iteration per TLC step) and '
-             'reduce() per class. TLC checks on every well-typed chain (length<=3 over 59 atoms, <=4 over 34) and '
+             'reduce() per class. TLC checks on every well-typed chain (length<=3 over 78 atoms incl. pytree-structured, block and '
+             'deceptive move-axis atoms; length 4 over 8 operators of one space; <=4 over 34 in thorough; plus TLC -simulate random '
+             'walks through chains of up to 8-10 operators) and '
              'on nested terms (block products over list/tuple/dict/nested containers, sums, inverses of composites) '
              'that every intermediate operand list denotes the original product, keeps the end structures, never '
              'raises and terminates. Every emitted term (sampled in quick) is reduced by the real library under '
              'rule wrappers; dense matrices before/after are compared with the spec matrix and the recorded '
-             'firings/result are validated by TLC (Trace_Reduce): each firing sound, result denotes the input.',
+             'firings/result are validated by TLC (Trace_Reduce): each firing sound, result denotes the input; the unreduced operator '
+             'is probed again after reduce() (no mutation of operands).',
         note='Bounded length/depth and an exact finite parameter domain; real matrices obtained by basis probes with '
              'a 2e-4 relative tolerance; projection of real objects to terms (harness/terms.py) is trusted and '
              'cross-checked by the input_projection clause.',
